@@ -66,6 +66,20 @@ def coverage(P, R, H):
     R.floor('C17.MPT.1', 2, 'value reads inside section hooks')
 
 
+def no_registration_in_hooks(P, R, H):
+    """WMC.1: a rebuild hook only looks nodes up.  Registering (conf_register_*) a node while rebuilding
+    marks it as owned by the program: it is then kept when a later file drops it, no membership change is
+    seen and the hook never runs for the removal."""
+    n = 0
+    for unit, h in H.items():
+        cl = {k: f for k, f in P.closure([h], may=False).items() if f.unit == unit}
+        bad = [s for f in cl.values() for s in f.calls() if (s.ev.get('callee') or '').startswith('conf_register_')]
+        n += 1
+        R.ob('C17.WMC.1', not bad, bad[0] if bad else h, 'the rebuild of %s only looks configuration nodes up (conf_get_child / iteration); it registers none' % unit, key='no-register:%s' % unit,
+             detail=[b.loc for b in bad] or None)
+    R.floor('C17.WMC.1', 2)
+
+
 def slot_insertion(P, R):
     f = P.need_fn('iauth_xquery_config_service')
     srv = None
@@ -165,6 +179,7 @@ def merge_delivery(P, R):
 def run(P, R, tier):
     H = wiring(P, R)
     coverage(P, R, H)
+    no_registration_in_hooks(P, R, H)
     slot_insertion(P, R)
     rebuilds(P, R, H)
     merge_delivery(P, R)
